@@ -35,7 +35,7 @@ func init() {
 		Rule: "twin monitor: X = history H1, Clear, history H2; Y = freshly constructed object, H2; the observation of X must equal Y's right after Clear and after every event of H2. H2 uses other index ranges than H1 (inside, overlapping, far below/above the old window, other pages), repeated clear/reuse cycles, DecodeAndMergeWith/MergeWith as first event after Clear; " +
 			"sketch level (both variants, all 5 store kinds with the same N) and store level (all observers vs the exact model of a fresh store, after every event). Non-trivial = the hook shows retained capacity reused or a previously collapsed store cleared; distinct = hash of both histories.",
 		Cases:     core.Scale(16000, 400000),
-		Mandatory: []string{"oracle.clear_twin_checks", "layout.reuse_capacity", "layout.cleared_collapsed", "clear.then_decode_first", "clear.then_merge_first", "clear.cycles", "oracle.store_checks"},
+		Mandatory: []string{"oracle.clear_twin_checks", "layout.reuse_capacity", "layout.cleared_collapsed", "clear.then_decode_first", "clear.then_merge_first", "clear.cycles", "oracle.store_checks", "clear.then_compaction_heavy_history"},
 		Run:       runC15,
 	})
 }
@@ -353,14 +353,27 @@ func runC15(c *core.Ctx) {
 		h2 := newHistGen(c, r, m, specX, p2, randSigmaIdx(r, 300))
 		h2.exact, h2.anySpec, h2.sameTarget = exact, true, true
 		h2.weights[opClear] = 0
+		heavy := r.P(0.3)
+		if heavy {
+			// many unit additions concentrated on a few pages: after Clear the buffer fills up and compaction
+			// re-creates pages in memory kept from before the Clear
+			conc := genValues(c, r, m, gen.StoreSpec{Kind: gen.SDense}, r.Range(20, 60), []string{"pos", "neg", "mixed"}[r.Intn(3)], []float64{3, 10, 30}[r.Intn(3)])
+			h2.pool = conc.vals
+			h2.weights[opAdd] = 400
+			c.Count("clear.then_compaction_heavy_history", 1)
+		}
 		switch r.Intn(4) {
 		case 0:
 			h2.pool = append([]float64{}, h1.pool...) // same range
 		case 1:
 			h2.pool = append(h2.pool, h1.pool[:len(h1.pool)/2]...) // overlapping
 		}
-		ops2 := h2.gen(r.Range(1, 40))
-		if len(ops2) > 0 {
+		n2 := r.Range(1, 40)
+		if heavy {
+			n2 = r.Range(100, 260)
+		}
+		ops2 := h2.gen(n2)
+		if len(ops2) > 0 && !heavy {
 			switch r.Intn(4) {
 			case 0:
 				ops2[0] = skOp{kind: opDecodeMerge, arg: h2.recipe(), omit: r.Bool()}
@@ -377,7 +390,7 @@ func runC15(c *core.Ctx) {
 			c.Failf("cleared_not_empty", "a cleared sketch differs from a new one (new vs cleared): %s", d)
 			return
 		}
-		for _, op := range ops2 {
+		for oi, op := range ops2 {
 			c.SigI(op.kind)
 			c.SigF(op.v)
 			e1 := applyOp(c, "X", &X, &specX, &mX, op)
@@ -388,6 +401,9 @@ func runC15(c *core.Ctx) {
 			if e1 != nil || e2 != nil {
 				c.Failf("op.error", "valid operation %s returned %v / %v", op, e1, e2)
 				return
+			}
+			if heavy && oi%8 != 7 && oi != len(ops2)-1 {
+				continue
 			}
 			c.Count("oracle.clear_twin_checks", 1)
 			if d := mon.Observe(Y, nil).Diff(mon.Observe(X, nil)); d != "" {
@@ -471,6 +487,16 @@ func runC15Store(c *core.Ctx) {
 				c.Count("clear.then_decode_first", 1)
 				h.check(s)
 			}
+		}
+		if r.P(0.3) {
+			// many unit additions on two adjacent pages: compaction re-creates pages in memory kept by Clear
+			base := (h.ig.centre >> 5) << 5
+			for i, k := 0, r.Range(80, 200); i < k && !c.Failed(); i++ {
+				h.budget.Charge(1)
+				s.Add(base + r.Intn(64) - 32*r.Intn(2))
+			}
+			c.Count("clear.then_compaction_heavy_history", 1)
+			h.check(s)
 		}
 		n := r.Range(1, 40)
 		for i := 0; i < n && !c.Failed(); i++ {
